@@ -1727,13 +1727,13 @@ class Parameter(_ParameterBase):
                     stacklevel=6,
                 )
 
-        if (self.constant or self.readonly) and obj is not None and getattr(obj._param__private, 'initialized', False):
-            # refused before the value is validated: validation may have
-            # effects of its own (a Selector that does not check on set adds
-            # the value to its objects)
-            if self.readonly:
-                raise TypeError("Read-only parameter '%s' cannot be modified" % name)
-            elif val is not obj._param__private.values.get(name, self.default) or (update_ref is not None and ref is not None):
+        # refused before the value is validated: validation may have effects
+        # of its own (a Selector that does not check on set adds the value to
+        # its objects)
+        if self.readonly:
+            raise TypeError("Read-only parameter '%s' cannot be modified" % name)
+        elif self.constant and obj is not None and getattr(obj._param__private, 'initialized', False):
+            if val is not obj._param__private.values.get(name, self.default) or (update_ref is not None and ref is not None):
                 raise TypeError("Constant parameter '%s' cannot be modified" % name)
 
         self._validate(val)
